@@ -267,7 +267,10 @@ Theorem C20_field_operators : forall R ops, is_ring R ops -> forall s o : R,
   (jdf_rmul_f s o = (o * s)%F /\ jdf_rmul_a s o = (o * s)%F) /\
   (jdf_truediv_f s o = (s / o)%F /\ jdf_truediv_a s o = (s / o)%F) /\
   (jdf_rtruediv_f s o = (o / s)%F /\ jdf_rtruediv_a s o = (o / s)%F) /\
-  (jdf_pow2 s = (s * s)%F /\ jdf_pow3 s = ((s * s) * s)%F).
+  (jdf_pow2 s = (s * s)%F /\ jdf_pow3 s = ((s * s) * s)%F) /\
+  (jdf_radd_f s o = (o + s)%F /\ jdf_radd_a s o = (o + s)%F) /\ jdf_neg s = (- s)%F /\
+  (* u ** k is value ** k and c ** u is c ** value, for ANY power function pw (base first) *)
+  (forall pw : R -> R -> R, jdf_pow_sym pw s o = pw s o /\ jdf_rpow_sym pw s o = pw o s).
 Proof.
   intros R ops H s o.
   split; [split; [apply jdf_add_f_def | apply jdf_add_a_def]; assumption|].
@@ -277,7 +280,10 @@ Proof.
   split; [split; [apply jdf_rmul_f_def | apply jdf_rmul_a_def]; assumption|].
   split; [split; [apply jdf_truediv_f_def | apply jdf_truediv_a_def]; assumption|].
   split; [split; [apply jdf_rtruediv_f_def | apply jdf_rtruediv_a_def]; assumption|].
-  split; [apply jdf_pow2_def | apply jdf_pow3_def]; assumption.
+  split; [split; [apply jdf_pow2_def | apply jdf_pow3_def]; assumption|].
+  split; [split; [apply jdf_radd_f_def | apply jdf_radd_a_def]; assumption|].
+  split; [apply jdf_neg_def; assumption|].
+  intros pw. split; [apply jdf_pow_sym_def | apply jdf_rpow_sym_def].
 Qed.
 Print Assumptions C20_field_operators.
 
